@@ -280,7 +280,8 @@ pub fn c15(seed: u64, tier: u32) -> Report {
     let parts: Vec<Report> = (0..32u64).into_par_iter().map(|th| {
         let mut rep = Report::new(); let mut r = Rng::new(seed ^ (th * 3571 + 23));
         for _ in 0..(if tier == 0 { 12 } else { 100 }) {
-            let m = if r.below(3) == 0 { "Unspecified" } else { *r.pick(&STD7) }; let tc = if r.below(3) != 0 { "Unspecified" } else { *r.pick(&TC14) };
+            // every matrix value (primaries-derived ones included: they consult the primaries tag)
+            let m = match r.below(4) { 0 => "Unspecified", 1 => MCS[r.below(15) as usize].0, _ => *r.pick(&STD7) }; let tc = if r.below(3) != 0 { "Unspecified" } else { *r.pick(&TC14) };
             let p = if r.below(3) != 0 { "Unspecified" } else { loop { let p = *r.pick(&CP11); if p != "ST428" { break p; } } };
             let (w, h) = *r.pick(&[(4usize, 4usize), (8, 2), (2, 480), (2, 488), (2, 576), (2, 577), (1280, 2), (1279, 1), (2, 575)]);
             let bd = *r.pick(&[8u8, 10, 12, 16]); let full = r.below(2) == 1;
@@ -391,24 +392,25 @@ pub fn c19(seed: u64, budget: usize) -> Report {
 }
 
 pub fn search(prop: &str, seed: u64, tier: u32) -> Report {
-    let q = tier == 0;
+    // tier 0 = quick, 1 = thorough (exhaustive where feasible), 2 = escalated quick (10x the quick budget)
+    let pick = |q: usize, t: usize| -> usize { match tier { 0 => q, 1 => t, _ => (q * 10).min(t) } };
     match prop {
-        "C01" | "C08" => c01_c08_c16(prop, seed, if q { 20_000 } else { 1 << 24 }),
-        "C16" => { let mut r = c01_c08_c16("C16", seed, 0); r.merge(c16_rest(seed, if q { 50_000 } else { 1 << 20 })); r }
-        "C02" => c02(seed, if q { 20_000 } else { 1_000_000 }),
-        "C03" | "C10" => crate::oracle2::c03_c10(prop, seed, if q { 300_000 } else { 1 << 30 }),
-        "C04" | "C05" => crate::oracle2::c04_c05(prop, seed, if q { 2_000_000 } else { 64_000_000 }),
-        "C06" => crate::oracle2::c06(seed, if q { 200_000 } else { 5_000_000 }),
+        "C01" | "C08" => c01_c08_c16(prop, seed, pick(20_000, 1 << 24)),
+        "C16" => { let mut r = c01_c08_c16("C16", seed, 0); r.merge(c16_rest(seed, pick(50_000, 1 << 20))); r }
+        "C02" => c02(seed, pick(20_000, 1_000_000)),
+        "C03" | "C10" => crate::oracle2::c03_c10(prop, seed, pick(300_000, 1 << 30)),
+        "C04" | "C05" => crate::oracle2::c04_c05(prop, seed, pick(2_000_000, 64_000_000)),
+        "C06" => crate::oracle2::c06(seed, pick(200_000, 5_000_000)),
         "C07" => outcomes("C07", seed, tier),
-        "C09" => c09(seed, if q { 400_000 } else { 8_000_000 }),
-        "C11" => c11(seed, if q { 200_000 } else { 3_000_000 }),
+        "C09" => c09(seed, pick(400_000, 8_000_000)),
+        "C11" => c11(seed, pick(200_000, 3_000_000)),
         "C12" => c12(seed, tier),
-        "C13" => { let mut r = outcomes("C13", seed, tier); r.merge(c13_codes(seed, if q { 100_000 } else { 2_000_000 })); r }
+        "C13" => { let mut r = outcomes("C13", seed, tier); r.merge(c13_codes(seed, pick(100_000, 2_000_000))); r }
         "C14" => c14(seed),
         "C15" => c15(seed, tier),
-        "C17" => crate::oracle2::c17(seed, if q { 2_000_000 } else { 64_000_000 }),
-        "C18" => crate::oracle2::c18(seed, if q { 4_000_000 } else { 1usize << 32 }),
-        "C19" => c19(seed, if q { 100_000 } else { 2_000_000 }),
+        "C17" => crate::oracle2::c17(seed, pick(2_000_000, 64_000_000)),
+        "C18" => crate::oracle2::c18(seed, pick(4_000_000, 1usize << 32)),
+        "C19" => c19(seed, pick(100_000, 2_000_000)),
         "C20" => { let mut r = Report::new(); for p in ["C01", "C02", "C03", "C04", "C05", "C06", "C08", "C10", "C17", "C18"] { let mut s = search(p, seed, 0); for f in &mut s.fails { f.what = format!("[{}] {}", p, f.what); } r.merge(s); } r }
         _ => Report { fails: vec![], evaluated: 0, worst: vec![] },
     }
